@@ -198,3 +198,39 @@ func verifTeardown(cfg int) {
 	}
 	verifFinal("quiescent", verifTeardownFinal(c, false))
 }
+
+// Detach (sequential): the caller takes the descriptor over, so netpoll must not close it —
+// whether the connection is still active or the poller has already reported the peer's hang-up
+// and the teardown is waiting for the user (connection without callbacks). Everything else is
+// torn down exactly once.
+//
+//verif:bounds connection without OnRequest/OnConnect, 1 close callback; Detach on an active connection / after a delivered peer hang-up / twice
+//verif:param 0 2
+//verif:loop 40
+//verif:replay interp
+func verifHarness_C05_detach(mode int) {
+	c := verifNewConn(verifConnCfg{closeCBs: 1})
+	op := c.operator
+	p := op.poll.(*defaultPoll)
+	if mode == 1 {
+		if op.do() {
+			p.appendHup(op)
+		}
+		p.onhups()
+		for verifRunPending() {
+		}
+		verifAssert(!c.IsActive(), "C05/active-after-hang-up")
+	}
+	err := c.Detach()
+	verifAssert(err == nil, "C05/detach-error")
+	if mode == 2 {
+		c.Detach()
+	}
+	for verifRunPending() {
+	}
+	verifAssert(!c.IsActive(), "C05/active-after-detach")
+	verifAssert(atomic.LoadInt32(&verifK.fdClose) == 0, "C05/descriptor-closed-although-detached")
+	verifAssert(atomic.LoadInt32(&verifK.cb[0]) == 1, "C05/close-callback-not-run-exactly-once")
+	verifAssert(atomic.LoadInt32(&verifK.ctlDel) == 1, "C05/poller-registration-not-released-exactly-once")
+	verifReach("end")
+}
